@@ -109,6 +109,12 @@ func (vc *VC) fieldAddr(p Val, st *types.Struct, skey string, field int) Val {
 	f := st.Field(field)
 	ft := f.Type()
 	res := Val{K: KPtr, Typ: types.NewPointer(ft)}
+	if p.Local != "" {
+		// field of a non-escaping local struct variable: private storage
+		res.T = p.T
+		res.Local = p.Local + "." + f.Name()
+		return res
+	}
 	if len(p.Path) != 0 {
 		vc.unsupported("field address of interior pointer")
 		res.T = vc.freshInt("badaddr")
@@ -155,6 +161,8 @@ func (vc *VC) load(st *State, p Val, t types.Type) Val {
 
 func (vc *VC) leafArr(p Val, t types.Type, l leaf) (name string, sort Sort, idx []Term) {
 	switch {
+	case p.Local != "":
+		return p.Local + l.suffix, l.sort, nil
 	case len(p.Path) == 0:
 		return "Cell." + typeKey(t) + l.suffix, ArrSort(SInt, l.sort), []Term{p.T}
 	case p.Path[0].IsIdx:
@@ -205,7 +213,10 @@ func (vc *VC) store(st *State, p Val, t types.Type, v Val) {
 			val = vc.zeroOfSort(l.sort)
 		}
 		var nt Term
-		if len(idx) == 1 {
+		if len(idx) == 0 {
+			vc.heapSet(st, name, val)
+			continue
+		} else if len(idx) == 1 {
 			nt = Store(arr, idx[0], val)
 		} else {
 			nt = Store(arr, idx[0], Store(Select(arr, idx[0]), idx[1], val))
